@@ -118,6 +118,23 @@ def loud_programs():
     progs["sort_multi_operand/top"] = mk(lambda x, y: lax.sort((x, y), num_keys=1)[1], [((4,), F32), ((4,), F32)])
     progs["cumsum_reverse/top"] = mk(lambda x: lax.cumsum(x, reverse=True), [((4,), F32)])
     progs["reduce_precision/top"] = mk(lambda x: lax.reduce_precision(x, 5, 10), [((3,), F32)])
+    # generic lax.reduce: only a reducer with ITS identity as init maps onto an ONNX Reduce* (which has no
+    # init operand); anything else must be rejected or carried along
+    red = lambda comp, init, dims: (lambda x: lax.reduce(x, np.float32(init), comp, dims))
+    for nm, comp, inits in (("max", lax.max, (-np.inf, np.inf, 0.0, 2.5)), ("min", lax.min, (np.inf, -np.inf, 0.0, -2.5)),
+                            ("add", lax.add, (0.0, 1.0, np.inf)), ("mul", lax.mul, (1.0, 0.0, 2.0))):
+        for init in inits:
+            tag = str(init).replace("-", "m").replace(".", "p")
+            progs[f"reduce_{nm}_init_{tag}/top"] = mk(red(comp, init, (1,)), [((2, 3), F32)])
+    progs["reduce_max_init_inf/in_cond"] = mk(lambda x: lax.cond(x[0, 0] > 0, lambda a: lax.reduce(a, np.float32(np.inf), lax.max, (0,)), lambda a: a[0], x), [((2, 3), F32)])
+    progs["reduce_int_max_init_wrong/top"] = mk(lambda x: lax.reduce(x, np.int32(2147483647), lax.max, (0,)), [((3,), I32)])
+    progs["reduce_int_min_init_wrong/top"] = mk(lambda x: lax.reduce(x, np.int32(-2147483648), lax.min, (0,)), [((3,), I32)])
+    progs["reduce_window_max_init_zero/top"] = mk(lambda x: lax.reduce_window(x, 0.0, lax.max, (2,), (1,), "VALID"), [((4,), F32)])
+    progs["reduce_window_add_init_one/top"] = mk(lambda x: lax.reduce_window(x, 1.0, lax.add, (2,), (1,), "VALID"), [((4,), F32)])
+    progs["cummax_like_scan/top"] = mk(lambda x: lax.associative_scan(lax.max, x, reverse=True), [((4,), F32)])
+    progs["argmax_index_dtype/top"] = mk(lambda x: lax.argmax(x, 0, np.int32) + lax.argmin(x, 0, np.int32), [((4,), F32)])
+    progs["clamp_lo_gt_hi/top"] = mk(lambda x: lax.clamp(1.0, x, -1.0), [((3,), F32)])
+    progs["top_k_zero/top"] = mk(lambda x: lax.top_k(x, 2)[1], [((4,), F32)])
     progs["round_even/top"] = mk(lambda x: lax.round(x, lax.RoundingMethod.TO_NEAREST_EVEN), [((3,), F32)])
     return progs
 
